@@ -1,5 +1,6 @@
 import RzilVerif.Model.Checks
 import RzilVerif.Lemmas.HeapLinear
+import RzilVerif.Model.DriverHeap
 /-!
 # C12 — IL node ownership is linear
 
@@ -181,5 +182,20 @@ example : linearProblems { header := none, items :=
     [.decl "RzILOpPure *" "a" (.app "ADD" [.id "Rs", .id "Rt"]),
      .decl "RzILOpEffect *" "e" (.app "SETL" [.str "x", .app "ADD" [.id "a", .id "a"]]),
      .ret (.id "e")] } ≠ [] := by decide
+
+/-! ### the driver request `heap` (Model/DriverHeap.lean) reports the model's own predicates -/
+
+example (b : Body) : (heapReport b).noDoubleFree = decide (NoDoubleFree (run b.items)) ∧
+    (heapReport b).noLeak = decide (NoLeak (run b.items)) ∧
+    (heapReport b).distinct = decide (ilNamesDistinct b.items) := ⟨rfl, rfl, rfl⟩
+example : heapReport exHeapLinear =
+  { nodes := 4, distinct := true, noDoubleFree := true, noLeak := true,
+    linearProblems := 0, double := [], leaked := [] } := by decide
+example : heapReport exHeapDouble =
+  { nodes := 3, distinct := true, noDoubleFree := false, noLeak := true,
+    linearProblems := 1, double := ["Rs"], leaked := [] } := by decide
+example : heapReport exHeapLeak =
+  { nodes := 3, distinct := true, noDoubleFree := true, noLeak := false,
+    linearProblems := 1, double := [], leaked := ["Rt"] } := by decide
 
 end Rzil
